@@ -59,6 +59,7 @@ def segment(conn, ci=0, cuts=None, mss=None):
             cs |= {x for x in c if 0 < x < total}
         cs |= {0, total}
         pts = sorted(cs)
+        mss = mss or 60000          # an IP datagram holds at most 65535 bytes: coalesced flights are cut there at the latest
         if mss:
             pts2 = []
             for a, b in zip(pts, pts[1:]):
